@@ -25,6 +25,41 @@ PROPS = {
             "accumulated difficulty of every branch of the unstable tree < 2^128 and branch lengths < 2^64 (BlockTree::wf)",
         ],
     ),
+    "C08": dict(
+        verus_units=["ingest", "core"],
+        technique="Verus contracts on the real bodies of utxos_delta.rs and of utxo_set.rs's time-sliced ingestion, with the budget predicate "
+                  "replaced by an arbitrary boolean at every call (the quantifier over schedules), a pause-point invariant (paused_ok) and a "
+                  "schedule-free spec function of the finished block (apply_txs); heartbeat phase order from unit core",
+        level_text="PARTIAL, unbounded (any block, any pause positions, any number of rounds). Decided for the UTXO map and its reader: "
+                   "(1) at EVERY pause of ingest_block_continue — whatever the budget predicate answers, at every input and every output — "
+                   "UtxoSet::get_utxo (verified: it reverts the ingesting block's delta) answers, for every output that pays an address, exactly what "
+                   "it answered before the block's ingestion began; (2) the position stored at a pause (transaction, input, output index) is exact: "
+                   "the set equals the start state with precisely the work up to that position applied (progress), so nothing is applied twice or "
+                   "skipped on resume; (3) when the block is done the set is apply_txs(start state, block) — a function of the start state and the "
+                   "block only, hence identical to an unsliced run; the delta's five indexes stay consistent (UtxosDelta::wf) and the repo's own "
+                   "assertions on them never fire. (core) heartbeat() returns before fetching or processing while a block is being ingested and the "
+                   "stable height does not move at a pause (C03/C13 obligations)",
+        level_note="NOT decided: the balances map and the address index under pauses (UtxoSet::get_balance and get_address_outpoints revert "
+                   "per-address sums / BTreeSets built by closures: not under contract; seed C01e is nevertheless caught because it breaks the "
+                   "delta bookkeeping that get_utxo reads), outputs that pay no address (the code does not record them in the delta; no endpoint "
+                   "can ask for them), termination (needs a fairness assumption on the budget predicate), the endpoints' answers as wholes "
+                   "(headers / info / utxos with filters), upgrades in the middle of an ingestion. Traps of the repo on blocks that are not "
+                   "transaction-valid or on disagreeing stable maps end the message (refuse mode: outside the property's domain).",
+        explanation="unit `ingest` verifies utxos_delta.rs (whole) and six functions of impl UtxoSet on stand-in stable maps (map semantics) and "
+                    "stand-in transaction types; each function's contract carries view_ok + frame + exact progress, so a caller is checked against "
+                    "the callee's contract only.",
+        unverified_links=[
+            "utxo_set.rs::get_balance / get_address_outpoints (reverted balances and address index while paused) and state.rs/heartbeat.rs glue that calls ingest_block(_continue)",
+            "utxos.rs (small/medium/large stable maps), StableBTreeMap<Address, u64>, the address index keyed by AddressUtxo::to_bytes: stand-ins with map semantics (key codec: Kani harnesses of C01)",
+            "UtxoSet::ingest_block (starts an ingestion: assert + IngestingBlock::new + ingest_block_continue) is not extracted; paused_ok at the start (empty delta, position 0) is immediate from its definition",
+            "liveness (ingestion finishes after finitely many rounds): needs an assumption on default_should_time_slice",
+        ],
+        assumptions=COMMON_ASSUMPTIONS + [
+            "domain, stated as preconditions (block_static / block_domain / tx_domain): transaction-valid block — pairwise different transaction ids, no outpoint spent twice, no transaction spends an output of itself or of a later transaction, inputs not yet spent by this block, created outpoints new (no BIP-30 duplicates), fewer than 2^32 transactions / inputs / outputs",
+            "machine arithmetic: address balances stay below 2^64 (an `assume`, listed in trusted_base); instruction-count statistics removed (R1)",
+            "rewrites R4 (enumerate().skip(k) => counter + `if i < k { continue; }`), R24 (continue elimination), R7 (budget predicate => arbitrary boolean), R21, R17, R3, R10 preserve meaning; each application is listed per function",
+        ],
+    ),
     "C20": dict(
         verus_units=["ledger", "core"],
         technique="Verus contracts on the real bodies of outpoints_cache.rs (insert_outpoints, OutPointsCache::remove with its nested fn, the getters) "
@@ -362,7 +397,7 @@ PROPS["C15"] = dict(
 )
 
 PROPS["C01"] = dict(
-    verus_units=["core"],
+    verus_units=["core", "ingest"],
     kani=["canister_leaf"],
     replays=[_rp("f1_prefix_address_does_not_leak", "F1", "quick"), _rp("f8_unfiltered_get_utxos_serves_the_heaviest_tip", "F8")],
     engine="kani-inject",
